@@ -114,8 +114,9 @@ Definition obs_ok (prev : nat) (s : fstate) (o : obs) : bool :=
   opt_eqb fl_eqb (sx s) (o_sx o) && bl_eqb (mfl s) (o_mfl o) && Bool.eqb (lpwt s) (o_lpwt o) &&
   fl_eqb (lres s) (o_lres o) && bl_eqb (ltw s) (o_ltw o) && feqb (pen_after s) (o_pen_after o) &&
   Z.eqb (alpha_last s) (o_alpha o) && Nat.eqb (ncall s) (o_ncall o) &&
-  (* after an exception inside add_point_to_log the implementation's log columns
-     are misaligned (known finding of C15): rows are not compared any more *)
+  (* o_ragged: the implementation's log columns have different lengths (cannot
+     happen since add_point_to_log records the knobs after the evaluation; if it
+     does, the C15 oracle reports it and the rows are not compared) *)
   (o_ragged o || (Nat.eqb (length (log s)) (o_loglen o) && list_eqb row_eqb (skipn prev (log s)) (o_newrows o))).
 
 Record tcase := mkCase {
